@@ -12,6 +12,7 @@ import (
 	"encoding/json"
 	"flag"
 	"fmt"
+	"math"
 	"os"
 	"strconv"
 	"strings"
@@ -22,7 +23,10 @@ import (
 	"golang.org/x/exp/rand"
 )
 
-var cmps = []string{"nat", "nat", "div3", "div3", "rev"}
+var cmps = []string{"nat", "nat", "div3", "div3", "rev", "diff"}
+
+// extreme elements (never under "diff": a-b must not overflow)
+var extremes = []int{math.MaxInt, math.MinInt, math.MaxInt - 1, math.MinInt + 1}
 var kinds = []string{"sl", "sl", "slpub"}
 
 func cmpOf(name string) func(a, b int) int {
@@ -41,6 +45,9 @@ func cmpOf(name string) func(a, b int) int {
 		return func(a, b int) int { return nat(a/3, b/3) }
 	case "rev":
 		return func(a, b int) int { return nat(b, a) }
+	case "diff":
+		// results of any magnitude (not only -1/0/1): only the sign may matter
+		return func(a, b int) int { return a - b }
 	}
 	panic("cmp " + name)
 }
@@ -57,6 +64,13 @@ func gen(tier string, out *vlib.Out) {
 		"new sl div3 3\nins 4\nins 3\nins 5\nins 6\nins 2\nasslice\nsearch 3\ndel 3\nasslice\nget 0\nget 1\npeek\ndel 5\ndel 4\ndel 3\nasslice",
 		"new slof div3 5 7,3,4,5,9,0,4\nasslice\nlen\nsearch 3\nget 2\ndel 4\nins 4\npeek",
 		"new slpub rev 11\nins 1\nins 2\nins 3\nins 2\nasslice\nsearch 2\ndel 2\ndel 7\nlen\nasslice",
+		// comparator results other than -1/0/1 (`return a - b`)
+		"new sl diff 13\nins 50\nins 10\nins 30\nins 0\nins -20\nins 30\nasslice\nsearch 30\nsearch 20\ndel 10\ndel 20\nget 0\nget 2\npeek\nasslice",
+		"new slof diff 17 9,-4,0,7,7,2\nasslice\nsearch 0\ndel 7\nins 1\nasslice",
+		// zero-valued elements (the header node holds the zero value too), negatives, extreme ints
+		"new sl nat 19\nsearch 0\ndel 0\nins 0\nsearch 0\npeek\nget 0\nlen\nasslice\nins 0\nins -1\nasslice\ndel 0\nsearch 0\ndel 0\nsearch 0\nasslice\ndel -1\nlen\npeek",
+		"new sl nat 23\nins 9223372036854775807\nins -9223372036854775808\nins 0\nins 9223372036854775807\nasslice\nsearch -9223372036854775808\nsearch 9223372036854775806\npeek\nget 3\ndel 9223372036854775807\ndel -9223372036854775808\nasslice",
+		"new slof div3 29 -9223372036854775808,-9223372036854775807,9223372036854775807,0,-2,2\nasslice\nsearch 1\nsearch -9223372036854775806\ndel 9223372036854775805\nasslice",
 	}
 	for _, c := range corpus {
 		for _, l := range strings.Split(c, "\n") {
@@ -83,7 +97,12 @@ func gen(tier string, out *vlib.Out) {
 			out.Line("new %s %s %d", kind, cmp, seed)
 		}
 		pub := kind == "slpub"
-		val := func() int { return r.Range(-span/2, span) }
+		val := func() int {
+			if cmp != "diff" && r.Chance(2) {
+				return vlib.Pick(r, extremes)
+			}
+			return r.Range(-span/2, span)
+		}
 		insv := func() int { v := val(); pool = append(pool, v); return v }
 		delv := func() int { // mostly a present value, sometimes an arbitrary (often absent) one
 			if len(pool) > 0 && r.Chance(65) {
